@@ -166,9 +166,48 @@ def strtol_range_rule(prog, R, RID4, reach, floor=0):
                         if not ok:
                             bad_use.append(line or n.get("l"))
                 _sym.visit_guarded(f["body"], cb)
+                # consumption: the end pointer tells how much of the token
+                # was converted; a discarded or untested end pointer lets a
+                # token with a suffix (1E5) be truncated silently
+                endarg = i["a"][1] if len(i.get("a", ())) > 1 else None
+                endvar = None
+                if endarg is not None:
+                    for x in walk(endarg):
+                        if x.get("k") == "ref" and x.get("d") == "local":
+                            endvar = x["n"]
+                unconsumed = []
+                if endvar is None:
+                    unconsumed = [d.get("l")]
+                else:
+                    def cb2(n, guards, line, var=var, endvar=endvar):
+                        if n.get("k") == "ref" and n.get("n") == var \
+                                and n.get("d") == "local":
+                            if not any(
+                                    g[0] != "case" and any(
+                                        y.get("k") == "ref"
+                                        and y.get("n") == endvar
+                                        for y in walk(g[0]))
+                                    for g in _sym.flatten_guards(guards)):
+                                unconsumed.append(line or n.get("l"))
+                    _sym.visit_guarded(f["body"], cb2)
                 R.instance(RID4, key, sample={
                     "result_variable": var, "errno_cleared_before": cleared,
-                    "unguarded_uses": bad_use})
+                    "unguarded_uses": bad_use, "end_pointer": endvar,
+                    "uses_without_consumption_test": unconsumed})
+                if unconsumed:
+                    R.violation(
+                        RID4, key + ":consumed",
+                        prog.loc(f, unconsumed[0]),
+                        "%s uses the result `%s` of %s %s: the conversion "
+                        "stops at the first character it does not "
+                        "understand, so a token with a suffix (an exponent "
+                        "it does not know, a letter) silently becomes its "
+                        "prefix" % (
+                            short(f["qn"]), var, i["n"],
+                            "whose end pointer is discarded"
+                            if endvar is None else
+                            "where the end pointer `%s` has not been "
+                            "tested (line %s)" % (endvar, unconsumed[0])))
                 if not cleared or bad_use:
                     R.violation(
                         RID4, key, prog.loc(f, bad_use[0] if bad_use
